@@ -441,7 +441,8 @@ def e_control(fr, c):
         out += e_bool(fr, c["critical"])
     if c["value"] is not None:
         out += e_str(fr, c["value"])
-    return T(fr, UNIV, True, 16, out)
+    # unrecognised trailing elements inside the Control SEQUENCE as well (tag sets 2..4: never UNIVERSAL BOOLEAN / OCTET STRING)
+    return T(fr, UNIV, True, 16, out + (trailing(fr) if int(fr.trailing) >= 2 else b""))
 
 
 def encode(msg, fr=CANON):
